@@ -251,6 +251,8 @@ def files_ok(dirpath, ideal_contents=None):
             continue
         reports[nm] = (c, r)
         probs += ['%s: %s' % (nm, x) for x in p]
+        if any(v is None for v in c.values()) and not p:
+            probs.append('%s: a reachable key has no decodable value' % nm)
         # second, independent reader: the extracted Coq reader Load.load (proved: load (render s) = s) on the real bytes
         cr = coq_reader(dirpath, nm)
         if cr is not None:
@@ -259,7 +261,7 @@ def files_ok(dirpath, ideal_contents=None):
             else:
                 t = cr.split()
                 cnt, ents = int(t[3].split('=')[1]), int(t[4].split('=')[1])
-                want = sorted(show(k) + '=' + show(v) for k, v in c.items())
+                want = sorted(show(k) + '=' + (show(v) if v is not None else '?') for k, v in c.items())
                 if cnt != ents:
                     probs.append('%s: Coq reader: stored item count %d but %d reachable entries' % (nm, cnt, ents))
                 elif t[5:] != want:
